@@ -3,6 +3,9 @@ package main
 import (
 	"fmt"
 	"io"
+	"net"
+	"net/url"
+	"time"
 	"strconv"
 	"strings"
 	"sync"
@@ -12,6 +15,8 @@ import (
 	"github.com/bfenetworks/bfe/bfe_http"
 	"github.com/bfenetworks/bfe/bfe_module"
 	"github.com/bfenetworks/bfe/bfe_server"
+	"github.com/bfenetworks/bfe/bfe_stream"
+	"github.com/bfenetworks/bfe/bfe_websocket"
 
 	"verifharness/e2e"
 )
@@ -151,4 +156,40 @@ func installScriptedFilters(srv *e2e.Server, l *filterLog) error {
 
 func e2e_panics(srv *e2e.Server) map[string]int64 {
 	return bfe_server.VerifPanicCounters(srv.Srv)
+}
+
+// e2eBalTableBackends returns the single backend object of each named cluster by
+// asking the server's own Balance entry point (no connection count is touched).
+func e2eBalTableBackends(srv *e2e.Server, hosts []string) []*backend.BfeBackend {
+	var out []*backend.BfeBackend
+	for _, h := range hosts {
+		var b *backend.BfeBackend
+		var err error
+		if h == "" {
+			c, derr := net.DialTimeout("tcp", srv.HTTPAddr, 5*time.Second)
+			if derr != nil {
+				continue
+			}
+			b, err = srv.Srv.Balance(c)
+			c.Close()
+		} else {
+			req := &bfe_http.Request{Method: "GET", Host: h, URL: &url.URL{Path: "/"}, Header: bfe_http.Header{}}
+			c, derr := net.DialTimeout("tcp", srv.HTTPAddr, 5*time.Second)
+			if derr != nil {
+				continue
+			}
+			req.State = new(bfe_http.RequestState)
+			req.State.Conn = c
+			b, err = srv.Srv.Balance(req)
+			c.Close()
+		}
+		if err == nil && b != nil {
+			out = append(out, b)
+		}
+	}
+	return out
+}
+
+func e2eTunnelPanics() (int64, int64) {
+	return bfe_websocket.GetWebSocketState().WebSocketPanicConn.Get(), bfe_stream.GetStreamState().StreamPanicConn.Get()
 }
